@@ -498,6 +498,324 @@ def punctProcess (env : Env) (k : Key) (c : Ctx) : Ctx × PResult :=
         let c1 := Ctx.pushInput env r.1 k.byte
         if punctTranslated c1 then (punctFinish env (shape, k.byte) d c1, .accepted) else (c1, .accepted)
 
+/-! ### AsciiComposer (ascii_composer.cc)
+
+Time: `toggle_expired_` and the two readings of `std::chrono::steady_clock` are `Ctx.acExpire` and `Ctx.clock` (ms); the
+clock is a parameter, moved by the environment between calls.
+
+Inline mode: while `connection_` is connected (`Ctx.acInline`), AsciiComposer::OnContextUpdate runs on every context
+update and, once the context is no longer composing, turns `ascii_mode` off and disconnects.  `Ctx.update` is shared by
+every mutator and is left as it is: the listener's effect is applied by `acSettle` at the end of each ProcessKey (nested
+or not) and of each API call.  Between the update that ends the composition and that point nothing reads `ascii_mode`
+or composes again (the two readers, the ascii composer and the key binder, sit at the head of the chain). -/
+
+def kLock : Nat := 2
+def Key.caps (k : Key) := k.has kLock
+
+def xkShiftL : Int := 0xffe1
+def xkShiftR : Int := 0xffe2
+def xkControlL : Int := 0xffe3
+def xkControlR : Int := 0xffe4
+def xkCapsLock : Int := 0xffe5
+def xkEisuToggle : Int := 0xff30
+
+/-- `bindings_.find(key_code)` -/
+def acStyleOf (env : Env) (code : Int) : Option AcStyle :=
+  match env.asciiKeys.find? (·.1 == code) with
+  | some e => some e.2
+  | none => none
+
+/-- `caps_lock_switch_style_` (LoadConfig: inline "can't do that" → clear); `none` = kAsciiModeSwitchNoop -/
+def acCapsStyle (env : Env) : Option AcStyle :=
+  match acStyleOf env xkCapsLock with
+  | some .inline => some .clear
+  | s => s
+
+/-- `shift_key_pressed_ = ctrl_key_pressed_ = false` -/
+def acUnpress (c : Ctx) : Ctx := { c with acShift := false, acCtrl := false }
+
+/-- AsciiComposer::SwitchAsciiMode -/
+def acSwitch (env : Env) (asciiMode : Bool) (style : AcStyle) (c : Ctx) : Ctx :=
+  let c1 :=
+    if c.isComposing then
+      let c0 := { c with acInline := false }
+      match style with
+      | .inline => if asciiMode then { c0 with acInline := true } else c0
+      | .commitText => (Ctx.confirmCurrentSelection env c0).1
+      | .commitCode => (Ctx.commit env (Ctx.clearNonConfirmedComposition c0).1).1
+      | .clear => Ctx.clear env c0
+    else c
+  Ctx.setOption env c1 "ascii_mode" asciiMode
+
+/-- AsciiComposer::ToggleAsciiModeWithKey -/
+def acToggleWithKey (env : Env) (code : Int) (c : Ctx) : Ctx :=
+  match acStyleOf env code with
+  | none => c
+  | some st => { acSwitch env (!c.getOption "ascii_mode") st c with acToggleWithCaps := decide (code = xkCapsLock) }
+
+/-- `isascii(ch) && isalpha(ch)` (C locale) -/
+def isAsciiAlpha (code : Int) : Bool := (code ≥ 65 && code ≤ 90) || (code ≥ 97 && code ≤ 122)
+
+/-- `islower ? toupper : tolower` on a letter -/
+def swapCase (code : Int) : UInt8 := if code ≥ 97 then UInt8.ofNat (code.toNat - 32) else UInt8.ofNat (code.toNat + 32)
+
+/-- AsciiComposer::ProcessCapsLock (`style` = caps_lock_switch_style_, not noop) -/
+def acCapsLock (env : Env) (style : AcStyle) (k : Key) (c : Ctx) : Ctx × PResult :=
+  if k.code = xkCapsLock then
+    if !k.release then
+      let c1 := acUnpress c
+      if env.goodOldCapsLock && !c1.acToggleWithCaps && c1.getOption "ascii_mode" then (c1, .rejected)
+      else (acSwitch env (!k.caps) style { c1 with acToggleWithCaps := !k.caps }, .accepted)
+    else (c, .rejected)
+  else if k.caps then
+    if !env.goodOldCapsLock && !k.release && !k.ctrl && isAsciiAlpha k.code then
+      -- engine_->CommitText: through the formatters, into the sink
+      ({ c with commitBuf := c.commitBuf ++ env.format [swapCase k.code] }, .accepted)
+    else (c, .rejected)
+  else (c, .noop)
+
+/-- the part of AsciiComposer::ProcessKeyEvent for the Shift / Control keys themselves -/
+def acModifierKey (env : Env) (isShift : Bool) (k : Key) (c : Ctx) : Ctx × PResult :=
+  if k.release then
+    if c.acShift || c.acCtrl then
+      let hit := ((isShift && c.acShift) || (!isShift && c.acCtrl)) && decide (c.clock < c.acExpire)
+      (acUnpress (if hit then acToggleWithKey env k.code c else c), .noop)
+    else (c, .noop)
+  else if !(c.acShift || c.acCtrl) then
+    -- first key down: will not toggle unless the key is released within 500 ms
+    -- (both flags are clear here: `if (is_shift) shift_key_pressed_ = true; else ctrl_key_pressed_ = true;`)
+    ({ c with acShift := isShift, acCtrl := !isShift, acExpire := c.clock + 500 }, .noop)
+  else (c, .noop)
+
+/-- the part for all other keys -/
+def acOtherKey (env : Env) (k : Key) (c0 : Ctx) : Ctx × PResult :=
+  let c := acUnpress c0
+  if k.ctrl || (k.shift && k.code = 0x20) then (c, .noop)       -- possible key binding: Control+x, Shift+space
+  else if c.getOption "ascii_mode" then
+    if !c.isComposing then (c, .rejected)                        -- direct commit
+    else if !k.release && k.code ≥ 0x20 && k.code < 0x80 then (Ctx.pushInput env c k.byte, .accepted)
+    else (c, .noop)
+  else (c, .noop)
+
+/-- `if (caps_lock_switch_style_ != kAsciiModeSwitchNoop) { result = ProcessCapsLock(key_event); … }` -/
+def acCapsStep (env : Env) (k : Key) (c : Ctx) : Ctx × PResult :=
+  match acCapsStyle env with
+  | some st => acCapsLock env st k c
+  | none => (c, .noop)
+
+/-- AsciiComposer::ProcessKeyEvent -/
+def asciiProcess (env : Env) (k : Key) (c : Ctx) : Ctx × PResult :=
+  if (k.shift && k.ctrl) || k.alt || k.super then (acUnpress c, .noop)
+  else
+    let r := acCapsStep env k c
+    if r.2 ≠ .noop then r
+    else if k.code = xkEisuToggle then
+      if !k.release then (acToggleWithKey env k.code (acUnpress r.1), .accepted) else (r.1, .rejected)
+    else if k.code = xkShiftL || k.code = xkShiftR then acModifierKey env true k r.1
+    else if k.code = xkControlL || k.code = xkControlR then acModifierKey env false k r.1
+    else acOtherKey env k r.1
+
+/-- AsciiComposer::OnContextUpdate, applied at the end of a ProcessKey / API call (see the section comment) -/
+def acSettle (c : Ctx) : Ctx :=
+  if c.acInline && !c.isComposing then { c.setOptionRaw "ascii_mode" false with acInline := false } else c
+
+/-! ### ShapeProcessor (gear/shape.cc), the engine's post-processor — needed here because the key binder hands keys
+back to `ConcreteEngine::ProcessKey`, post-processors included -/
+
+def isPrintable (b : UInt8) : Bool := decide (b ≥ 0x20) && decide (b ≤ 0x7e)
+
+/-- ShapeFormatter::Format with `full_shape` on (`char` is signed: bytes ≥ 0x80 are `< 0x20`) -/
+def shapeFormat (t : Bytes) : Bytes :=
+  if t.all (fun b => !isPrintable b) then t
+  else t.flatMap (fun b =>
+    if b = 0x20 then [0xe3, 0x80, 0x80]
+    else if isPrintable b then [0xef, 0xbc + (b - 0x20) / 0x40, 0x80 + (b - 0x20) % 0x40]
+    else [b])
+
+/-- ShapeProcessor::ProcessKeyEvent, run by ConcreteEngine::ProcessKey after the processors when none of them
+accepted the key (also after a `kRejected`) -/
+def shapePost (k : Key) (c : Ctx) : Ctx × Bool :=
+  if !c.getOption "full_shape" then (c, false)
+  else if k.ctrl || k.alt || k.super || k.release then (c, false)
+  else if k.code < 0x20 || k.code > 0x7e then (c, false)
+  else ({ c with commitBuf := c.commitBuf ++ shapeFormat [k.byte] }, true)
+
+/-! ### KeyBinder (key_binder.cc) and the `Switches` lookups its option actions use (switches.cc) -/
+
+/-- a found `Switches::SwitchOption`: switch_index, type, option_name, reset_value, option_index -/
+structure SwOpt where
+  sw : Nat
+  radio : Bool
+  name : String
+  reset : Int
+  idx : Nat
+  deriving Repr, DecidableEq, Inhabited
+
+/-- the options `Switches::FindOption` visits, in its order: the switches in order; a radio group's options in order -/
+def swEnum (sws : List SwitchDef) : List SwOpt :=
+  (sws.zipIdx).flatMap (fun e =>
+    match e.1 with
+    | .toggle n r => [{ sw := e.2, radio := false, name := n, reset := r, idx := 0 }]
+    | .radio os r => os.zipIdx.map (fun o => { sw := e.2, radio := true, name := o.1, reset := r, idx := o.2 }))
+
+/-- Switches::OptionByName -/
+def swByName (sws : List SwitchDef) (name : String) : Option SwOpt := (swEnum sws).find? (·.name == name)
+
+/-- Switches::ByIndex: the switch at that index; of a radio group its first option -/
+def swByIndex (sws : List SwitchDef) (i : Nat) : Option SwOpt :=
+  match sws[i]? with
+  | some (.toggle n r) => some { sw := i, radio := false, name := n, reset := r, idx := 0 }
+  | some (.radio (o :: _) r) => some { sw := i, radio := true, name := o, reset := r, idx := 0 }
+  | _ => none
+
+/-- the option names of the radio group a found option belongs to (`the_switch->Get("options")`) -/
+def swGroup (sws : List SwitchDef) (o : SwOpt) : List String :=
+  match sws[o.sw]? with
+  | some (.radio os _) => os
+  | _ => []
+
+/-- ConcreteEngine::InitializeOptions: every switch with a `reset:` value puts its option(s) in that state when the
+schema is applied (the context has just been cleared: nothing to recompose) -/
+def swInitOptions (sws : List SwitchDef) (c : Ctx) : Ctx :=
+  (swEnum sws).foldl (fun c o =>
+    if o.reset ≥ 0 then c.setOptionRaw o.name (if o.radio then decide ((o.idx : Int) = o.reset) else o.reset != 0) else c) c
+
+/-- `radio_select_option`: every option of the group whose value differs from (its index == idx) is set, in order -/
+def radioSelect (env : Env) (group : List String) (idx : Nat) (c : Ctx) : Ctx :=
+  group.zipIdx.foldl (fun c o =>
+    let v := decide (o.2 = idx)
+    if c.getOption o.1 != v then Ctx.setOption env c o.1 v else c) c
+
+/-- `toggle_option`'s lookup: `@<digits>` addresses a switch by index, anything else by name.  (`std::stoul` also
+accepts a sign, leading blanks and trailing garbage; the driver refuses such targets.) -/
+def kbLookupToggle (sws : List SwitchDef) (opt : String) : Option SwOpt :=
+  if opt.front = '@' && opt ≠ "" then
+    match (opt.drop 1).toNat? with
+    | some n => swByIndex sws n
+    | none => none
+  else swByName sws opt
+
+/-- `toggle_option` (key_binder.cc) -/
+def kbToggle (env : Env) (opt : String) (c : Ctx) : Ctx :=
+  match kbLookupToggle env.switches opt with
+  | some o =>
+    if o.radio then
+      let group := swGroup env.switches o
+      -- the currently selected option of the group: the first one that is on
+      match (group.zipIdx).find? (fun e => c.getOption e.1) with
+      | none => radioSelect env group o.idx c         -- invalid state, none selected: select the given option
+      | some sel =>
+        let next := (sel.2 + 1) % group.length        -- Switches::Cycle
+        if next ≠ sel.2 then radioSelect env group next c else c
+    else Ctx.setOption env c o.name (!c.getOption o.name)
+  | none => Ctx.setOption env c opt (!c.getOption opt)
+
+/-- `set_option` (key_binder.cc) -/
+def kbSet (env : Env) (opt : String) (c : Ctx) : Ctx :=
+  match swByName env.switches opt with
+  | some o => if o.radio then radioSelect env (swGroup env.switches o) o.idx c else Ctx.setOption env c opt true
+  | none => Ctx.setOption env c opt true
+
+/-- `unset_option` (key_binder.cc); Switches::Reset: the group's default option is `reset` (0 when not given) -/
+def kbUnset (env : Env) (opt : String) (c : Ctx) : Ctx :=
+  match swByName env.switches opt with
+  | some o =>
+    if o.radio then
+      if c.getOption opt then
+        let group := swGroup env.switches o
+        let dflt := if o.reset ≥ 0 then o.reset.toNat else 0
+        if dflt ≥ group.length || dflt = o.idx then c else radioSelect env group dflt c
+      else c
+    else Ctx.setOption env c opt false
+  | none => Ctx.setOption env c opt false
+
+/-- KeyBindings::Bind: `insert before existing binding of the same condition` (std::lower_bound on `whence`) -/
+def kbInsert (vec : List KbBinding) (b : KbBinding) : List KbBinding :=
+  vec.takeWhile (fun x => x.whence.rank < b.whence.rank) ++ b :: vec.dropWhile (fun x => x.whence.rank < b.whence.rank)
+
+/-- `(*key_bindings_)[key_event]`: the bindings of one key (keycode and modifier both equal) as LoadBindings leaves them -/
+def kbBindingsFor (bs : List KbBinding) (k : Key) : List KbBinding :=
+  (bs.filter (fun b => b.code == k.code && b.mask == k.mask)).foldl kbInsert []
+
+/-- KeyBindingConditions: is the condition in the set built from the context?  No component of the library sets the
+tag `prediction` (plugins do): `predicting` never holds. -/
+def kbCond (c : Ctx) (w : KbWhen) : Bool :=
+  match w with
+  | .always => true
+  | .composing => c.isComposing
+  | .hasMenu => c.hasMenu && !c.getOption "ascii_mode"
+  | .paging => match c.comp.segs.getLast? with | some g => g.tags.paging | none => false
+  | .predicting => false
+
+/-- `int ch = (key_event.modifier() == 0) ? key_event.keycode() : 0;` -/
+def kbCh (k : Key) : Int := if k.mask = 0 then k.code else 0
+
+/-- KeyBinder::ReinterpretPagingKey: a period that paged down, followed by a letter, becomes part of the input after
+all (`ctx->PushInput(last_key_)`, then the letter goes on through the chain); returns the new state and `ret` -/
+def kbReinterpret (env : Env) (k : Key) (c : Ctx) : Ctx × Bool :=
+  if k.release then (c, false)
+  else
+    let ch := kbCh k
+    if ch = 46 && (c.kbLastKey = 46 || c.kbLastKey = 44) then ({ c with kbLastKey := 0 }, false)
+    else
+      let push := c.kbLastKey = 46 && ch ≥ 97 && ch ≤ 122 && c.input ≠ [] && c.input.getLast? != some 46
+      let c1 := if push then Ctx.pushInput env c 46 else c
+      ({ c1 with kbLastKey := ch }, push)
+
+/-- KeyBinder::PerformKeyBinding; `reent` = `engine_->ProcessKey` as it behaves while `redirecting_` is set -/
+def kbPerform (reent : Key → Ctx → Ctx × Bool) (env : Env) (a : KbAction) (c : Ctx) : Ctx :=
+  match a with
+  | .send keys => keys.foldl (fun c kk => (reent ⟨kk.1, kk.2⟩ c).1) c
+  | .toggle o => kbToggle env o c
+  | .setOption o => kbSet env o c
+  | .unsetOption o => kbUnset env o c
+
+/-- the binding KeyBinder::ProcessKeyEvent performs for this key in this state, if any: the first of the key's bindings
+whose condition holds -/
+def kbFind (env : Env) (k : Key) (c : Ctx) : Option KbBinding :=
+  (kbBindingsFor env.bindings k).find? (fun b => kbCond c b.whence)
+
+/-- KeyBinder::ProcessKeyEvent outside a redirection (`redirecting_` clear) -/
+def kbProcess (reent : Key → Ctx → Ctx × Bool) (env : Env) (k : Key) (c : Ctx) : Ctx × PResult :=
+  if env.bindings = [] then (c, .noop)
+  else
+    let r := kbReinterpret env k c
+    if r.2 then (r.1, .noop)
+    else match kbFind env k r.1 with
+      | none => (r.1, .noop)
+      | some b => (kbPerform reent env b.action r.1, .accepted)
+
+/-- the processors as they act inside a redirection: `redirecting_` is a private member of KeyBinder, set exactly
+around the loop of PerformKeyBinding, and KeyBinder::ProcessKeyEvent returns kNoop when it is set before looking at
+anything else (not even `last_key_` moves) — so the nested chain is the chain with the key binder a no-op, and the
+re-entrancy is exactly one level deep: no fuel is needed. -/
+def procRunInner (env : Env) (p : Proc) (k : Key) (c : Ctx) : Ctx × PResult :=
+  match p with
+  | .speller => spellerProcess env k c
+  | .selector => selectorProcess env k c
+  | .navigator => navigatorProcess env k c
+  | .expressEditor => editorProcess env false k c
+  | .fluidEditor => editorProcess env true k c
+  | .other => (c, .noop)
+  | .punctuator => punctProcess env k c
+  | .keyBinder => (c, .noop)
+  | .asciiComposer => asciiProcess env k c
+
+def chainInner (env : Env) (k : Key) : List Proc → Ctx → Ctx × Bool
+  | [], c => (c, false)
+  | p :: ps, c =>
+    let r := procRunInner env p k c
+    match r.2 with
+    | .accepted => (r.1, true)
+    | .rejected => (r.1, false)
+    | .noop => chainInner env k ps r.1
+
+/-- ConcreteEngine::ProcessKey as PerformKeyBinding calls it: the processors, then (unless one accepted) the post-processor -/
+def processKeyNested (env : Env) (k : Key) (c : Ctx) : Ctx × Bool :=
+  let r := chainInner env k env.processors c
+  let r := if r.2 then r else shapePost k r.1
+  (acSettle r.1, r.2)
+
 /-! ### the chain (ConcreteEngine::ProcessKey) -/
 
 def procRun (env : Env) (p : Proc) (k : Key) (c : Ctx) : Ctx × PResult :=
@@ -509,6 +827,8 @@ def procRun (env : Env) (p : Proc) (k : Key) (c : Ctx) : Ctx × PResult :=
   | .fluidEditor => editorProcess env true k c
   | .other => (c, .noop)
   | .punctuator => punctProcess env k c
+  | .keyBinder => kbProcess (processKeyNested env) env k c
+  | .asciiComposer => asciiProcess env k c
 
 /-- returns the new state and whether the key was handled -/
 def chain (env : Env) (k : Key) : List Proc → Ctx → Ctx × Bool
